@@ -347,7 +347,49 @@ func c12r2(p *Program, r *Report) {
 		}
 		// calls are collected in evaluation order of the nested appends
 		sort.SliceStable(args, func(i, j int) bool { return false })
-		r.Check(len(args) == 3 && len(params) == 3 && sameSet(args, params) && encVintsOrder(fi, info, params), fi.Decl, "encVints concatenates the three vints in parameter order", strings.Join(args, ","), "encVints does not emit vint(months) vint(days) vint(nanoseconds) in that order")
+		okOrder := len(args) == 3 && len(params) == 3 && sameSet(args, params) && encVintsOrder(fi, info, params)
+		if !okOrder && len(params) == 3 {
+			// statement form: buf := encVint(a); buf = append(buf, encVint(b)...); ... - every path emits the vints of
+			// the parameters in order (evaluation order of the calls, each result appended behind what was there)
+			tr := newReadTracer(p)
+			tr.prims = map[string]string{"encVint": "vint"}
+			tr.noAuto = func(string) bool { return true }
+			okAll, npaths := true, 0
+			for _, st := range tr.run(fi, 4) {
+				if st.done != "return" {
+					continue
+				}
+				npaths++
+				var got []string
+				for _, it := range flat(st.trace) {
+					if it.Prim == "vint" && it.Call != nil && len(it.Call.Args) == 1 {
+						got = append(got, stripConv(info, it.Call.Args[0]))
+					}
+				}
+				if strings.Join(got, ",") != strings.Join(params, ",") {
+					okAll = false
+				}
+			}
+			// no prepend: every append keeps the accumulated buffer as its first argument
+			ast.Inspect(fi.Decl.Body, func(x ast.Node) bool {
+				if c, ok := x.(*ast.CallExpr); ok && exprStr(c.Fun) == "append" && len(c.Args) == 2 {
+					if ic, isC := ast.Unparen(c.Args[0]).(*ast.CallExpr); isC && isCallTo(info, ic, "encVint") {
+						return true
+					}
+					if _, isId := ast.Unparen(c.Args[0]).(*ast.Ident); !isId {
+						okAll = false
+					}
+					if as, isAs := p.Parent(c).(*ast.AssignStmt); isAs && len(as.Lhs) == 1 && exprStr(as.Lhs[0]) != exprStr(c.Args[0]) {
+						if _, isDef := ast.Unparen(c.Args[0]).(*ast.CallExpr); !isDef && as.Tok != token.DEFINE {
+							okAll = false
+						}
+					}
+				}
+				return true
+			})
+			okOrder = okAll && npaths > 0 && len(tr.unsup) == 0
+		}
+		r.Check(okOrder, fi.Decl, "encVints concatenates the three vints in parameter order", strings.Join(args, ","), "encVints does not emit vint(months) vint(days) vint(nanoseconds) in that order")
 	}
 	if fi := r.NeedFunc("decVints"); fi != nil {
 		info := fi.Pkg.TypesInfo
@@ -378,6 +420,83 @@ func c12r2(p *Program, r *Report) {
 			k++
 			return true
 		})
+		if !(okChain && k == 3) {
+			// loop form: one decVint call in a loop of exactly three iterations; it starts at a position variable that is 0
+			// before the loop and receives the call's second result in every iteration
+			var loopCall *ast.CallExpr
+			var loop ast.Node
+			for _, c := range callsIn(fi.Decl.Body) {
+				if isCallTo(info, c, "decVint") && len(c.Args) == 2 {
+					if l := p.enclosing(c, fi.Decl, func(m ast.Node) bool {
+						switch m.(type) {
+						case *ast.ForStmt, *ast.RangeStmt:
+							return true
+						}
+						return false
+					}); l != nil {
+						loopCall, loop = c, l
+					}
+				}
+			}
+			if loopCall != nil && len(idx) == 1 {
+				three := false
+				switch l := loop.(type) {
+				case *ast.RangeStmt:
+					if t := info.TypeOf(l.X); t != nil {
+						if a, isA := t.Underlying().(*types.Array); isA && a.Len() == 3 {
+							three = true
+						}
+					}
+					if k3, isK := constInt(info, l.X); isK && k3 == 3 {
+						three = true
+					}
+				case *ast.ForStmt:
+					if _, n3, isIdx := indexLoopBounds(info, l); isIdx {
+						if k3, isK := constInt(info, n3); isK && k3 == 3 {
+							three = true
+						}
+					}
+				}
+				posID, isId := ast.Unparen(loopCall.Args[1]).(*ast.Ident)
+				okPos := false
+				if isId {
+					obj := info.Uses[posID]
+					next := resultVarOf(p, loopCall, 1)
+					startsZero, advanced, other := false, false, false
+					ast.Inspect(fi.Decl.Body, func(x ast.Node) bool {
+						as, ok := x.(*ast.AssignStmt)
+						if !ok || len(as.Lhs) != len(as.Rhs) && len(as.Rhs) != 1 {
+							return true
+						}
+						for i, l := range as.Lhs {
+							if !isIdentOf(info, l, obj) && !(as.Tok == token.DEFINE && exprStr(l) == posID.Name && info.Defs[l.(*ast.Ident)] == obj) {
+								continue
+							}
+							inLoop := posWithin(loop, as.Pos())
+							switch {
+							case !inLoop && len(as.Rhs) == len(as.Lhs):
+								if z, isK := constInt(info, as.Rhs[i]); isK && z == 0 {
+									startsZero = true
+								} else {
+									other = true
+								}
+							case inLoop && len(as.Rhs) == len(as.Lhs) && exprStr(ast.Unparen(as.Rhs[i])) == next:
+								advanced = true
+							case inLoop && len(as.Rhs) == 1 && ast.Unparen(as.Rhs[0]) == ast.Expr(loopCall) && i == 1:
+								advanced = true
+							default:
+								other = true
+							}
+						}
+						return true
+					})
+					okPos = startsZero && advanced && !other
+				}
+				if three && okPos {
+					okChain, k = true, 3
+				}
+			}
+		}
 		r.Check(okChain && k == 3, fi.Decl, "decVints reads three consecutive vints", strings.Join(idx, ","), "decVints does not read three vints each starting where the previous ended")
 	}
 	if fi := r.NeedFunc("marshalDecimal"); fi != nil {
@@ -1088,12 +1207,16 @@ func writeSeqP(p *Program, info *types.Info, n ast.Node, buf string, depth int) 
 			}
 		}
 		switch {
+		case isCallTo(info, c, "Marshal") && len(c.Args) == 2:
+			out = append(out, "marshal("+exprStr(c.Args[0])+")")
 		case isCallTo(info, c, "writeCollectionSize") && len(c.Args) == 3:
 			out = append(out, "size("+lenNorm(info, n, c.Args[1])+")")
 		case calleeName(info, c) == "bytes.(*Buffer).Write" && len(c.Args) == 1:
 			out = append(out, "bytes("+exprStr(c.Args[0])+")")
 		case isCallTo(info, c, "appendInt") && len(c.Args) == 2:
-			if id, isId := ast.Unparen(stripAllConv(info, c.Args[1])).(*ast.Ident); isId {
+			if k, isK := constInt(info, ast.Unparen(stripAllConv(info, c.Args[1]))); isK {
+				out = append(out, "int("+fmtInt(int(k))+")")
+			} else if id, isId := ast.Unparen(stripAllConv(info, c.Args[1])).(*ast.Ident); isId {
 				out = append(out, "int("+lenNorm(info, n, id)+")")
 			} else {
 				out = append(out, "int("+stripConv(info, c.Args[1])+")")
@@ -1114,8 +1237,8 @@ func c12r5(p *Program, r *Report) {
 		var loop *ast.ForStmt
 		ast.Inspect(fi.Decl.Body, func(x ast.Node) bool {
 			if f, ok := x.(*ast.ForStmt); ok && loop == nil {
-				for _, c := range callsIn(f.Body) {
-					if isCallTo(info, c, "Marshal") {
+				for _, it := range writeSeqP(p, info, f.Body, "buf", 0) {
+					if strings.HasPrefix(it, "marshal(") {
 						loop = f
 					}
 				}
@@ -1125,7 +1248,7 @@ func c12r5(p *Program, r *Report) {
 		if loop == nil {
 			r.Unresolved("marshalList: element loop not found")
 		} else {
-			seq := writeSeqP(p, info, loop.Body, "buf", 0)
+			seq := noMarshal(writeSeqP(p, info, loop.Body, "buf", 0))
 			r.Check(framedPairs(seq, 1, "size"), loop, "marshalList element framing", strings.Join(seq, " "), "a list element is framed as `"+strings.Join(seq, " ")+"`, not [size][bytes]")
 			// count before the loop, equal to the number of elements iterated
 			var before []string
@@ -1155,13 +1278,14 @@ func c12r5(p *Program, r *Report) {
 		if loop == nil {
 			r.Unresolved("marshalMap: entry loop not found")
 		} else {
-			seq := writeSeqP(p, info, loop.Body, "buf", 0)
+			full := writeSeqP(p, info, loop.Body, "buf", 0)
+			seq := noMarshal(full)
 			r.Check(framedPairs(seq, 2, "size"), loop, "marshalMap entry framing", strings.Join(seq, " "), "a map entry is framed as `"+strings.Join(seq, " ")+"`, not [size][key][size][value]")
 			// key marshalled with Key type first, value with Elem type second
 			var ms []string
-			for _, c := range callsIn(loop.Body) {
-				if isCallTo(info, c, "Marshal") && len(c.Args) == 2 {
-					ms = append(ms, exprStr(c.Args[0]))
+			for _, it := range full {
+				if strings.HasPrefix(it, "marshal(") {
+					ms = append(ms, strings.TrimSuffix(strings.TrimPrefix(it, "marshal("), ")"))
 				}
 			}
 			r.Check(len(ms) == 2 && strings.HasSuffix(ms[0], ".Key") && strings.HasSuffix(ms[1], ".Elem"), loop, "marshalMap encodes the key with the key type, then the value with the value type", strings.Join(ms, ", "), "map entries are not encoded as (key: Key type, value: Elem type): "+strings.Join(ms, ", "))
@@ -1185,7 +1309,7 @@ func c12r5(p *Program, r *Report) {
 				return true
 			}
 			n++
-			seq := writeSeqP(p, info, loop.Body, "buf", 0)
+			seq := noMarshal(writeSeqP(p, info, loop.Body, "buf", 0))
 			var rest []string
 			nulls := 0
 			for _, it := range seq {
@@ -1212,7 +1336,7 @@ func c12r5(p *Program, r *Report) {
 				return true
 			}
 			n++
-			seq := writeSeqP(p, info, loop.Body, "buf", 0)
+			seq := noMarshal(writeSeqP(p, info, loop.Body, "buf", 0))
 			r.Check(len(seq) == 1 && strings.HasPrefix(seq[0], "lenbytes("), loop, fmt.Sprintf("marshalUDT loop %d field framing in declaration order", n), strings.Join(seq, " "), "a UDT field is framed as `"+strings.Join(seq, " ")+"`, not one [bytes] per declared field in order")
 			return true
 		})
@@ -1622,6 +1746,83 @@ func c12r6(p *Program, r *Report) {
 					return true
 				})
 			}
+			if !be {
+				// any loop of the form `buf[IDX] = byte(v >> SH)`: for every size 2..9 and every iteration the shift is
+				// 8*(size-1-IDX) and the iterations cover every index (index and shift expressions evaluated over the
+				// finite domain of sizes and loop positions)
+				ast.Inspect(fi.Decl.Body, func(x ast.Node) bool {
+					var body *ast.BlockStmt
+					var loopVar string
+					var bound ast.Expr // nil: range over the buffer
+					switch l := x.(type) {
+					case *ast.ForStmt:
+						k, n2, isIdx := indexLoopBounds(info, l)
+						if !isIdx {
+							return true
+						}
+						body, loopVar, bound = l.Body, k, n2
+					case *ast.RangeStmt:
+						kid, isId := l.Key.(*ast.Ident)
+						if !isId || l.Value != nil {
+							return true
+						}
+						body, loopVar = l.Body, kid.Name
+					default:
+						return true
+					}
+					if len(body.List) != 1 {
+						return true
+					}
+					a, isAs := body.List[0].(*ast.AssignStmt)
+					if !isAs || len(a.Lhs) != 1 || len(a.Rhs) != 1 || a.Tok != token.ASSIGN {
+						return true
+					}
+					ix, isIx := ast.Unparen(a.Lhs[0]).(*ast.IndexExpr)
+					cv, isCv := ast.Unparen(a.Rhs[0]).(*ast.CallExpr)
+					if !isIx || !isCv || len(cv.Args) != 1 {
+						return true
+					}
+					if tv, isT := info.Types[cv.Fun]; !isT || !tv.IsType() || !isByteType(tv.Type) {
+						return true
+					}
+					sh, isSh := ast.Unparen(cv.Args[0]).(*ast.BinaryExpr)
+					if !isSh || sh.Op != token.SHR || exprStr(ast.Unparen(sh.X)) != zz {
+						return true
+					}
+					okAll := true
+					for size := 2; size <= 9 && okAll; size++ {
+						n := size
+						if bound != nil {
+							evb := &evalEnv{info: info, fi: fi, vars: map[string]int64{exprStr(sizeExpr): int64(size)}, seen: map[types.Object]bool{}}
+							bv, okB := evb.eval(bound)
+							if !okB {
+								okAll = false
+								break
+							}
+							n = int(bv)
+						}
+						covered := map[int64]bool{}
+						for i := 0; i < n; i++ {
+							ev := &evalEnv{info: info, fi: fi, vars: map[string]int64{exprStr(sizeExpr): int64(size), loopVar: int64(i)}, seen: map[types.Object]bool{}}
+							idx, ok1 := ev.eval(ix.Index)
+							ev2 := &evalEnv{info: info, fi: fi, vars: map[string]int64{exprStr(sizeExpr): int64(size), loopVar: int64(i)}, seen: map[types.Object]bool{}}
+							shv, ok2 := ev2.eval(sh.Y)
+							if !ok1 || !ok2 || idx < 0 || idx >= int64(size) || shv != 8*(int64(size)-1-idx) {
+								okAll = false
+								break
+							}
+							covered[idx] = true
+						}
+						if len(covered) != size {
+							okAll = false
+						}
+					}
+					if okAll {
+						be = true
+					}
+					return true
+				})
+			}
 			r.Check(be, fi.Decl, "encVint payload is big-endian", "buf[i] = byte(v); v >>= 8 for i descending", "the vint payload bytes are not written most-significant first")
 		}
 	}
@@ -1698,85 +1899,118 @@ func c12r7(p *Program, r *Report) {
 	if fi == nil {
 		return
 	}
-	info := fi.Pkg.TypesInfo
-	var sw *ast.SwitchStmt
+	g := p.GraphOf(fi)
+	info := g.Info
+	facts := g.GuardFacts()
+	// names for the sign: n.Sign() itself and locals bound to it
+	signNames := map[string]bool{}
 	ast.Inspect(fi.Decl.Body, func(x ast.Node) bool {
-		if s, ok := x.(*ast.SwitchStmt); ok && sw == nil && strings.HasSuffix(exprStr(s.Tag), ".Sign()") {
-			sw = s
+		if c, ok := x.(*ast.CallExpr); ok && calleeName(info, c) == "big.(*Int).Sign" {
+			signNames[strings.ReplaceAll(exprStr(c), " ", "")] = true
+			if as, isAs := p.Parent(c).(*ast.AssignStmt); isAs && len(as.Lhs) == 1 {
+				signNames[exprStr(as.Lhs[0])] = true
+			}
 		}
 		return true
 	})
-	if sw == nil {
-		r.Unresolved("encBigInt2C: switch on n.Sign() not found")
+	if len(signNames) == 0 {
+		r.Unresolved("encBigInt2C: the sign of the value is never examined")
 		return
 	}
-	for _, cl := range sw.Body.List {
-		cc := cl.(*ast.CaseClause)
-		if len(cc.List) != 1 {
-			continue
+	classAt := func(n ast.Node) (string, map[string]bool) {
+		f, ok := facts.Before(p.stmtOf(n, fi))
+		if !ok {
+			return "", nil
 		}
-		k, _ := constInt(info, cc.List[0])
-		switch k {
-		case 0:
-			ok := false
-			if rs, isR := cc.Body[len(cc.Body)-1].(*ast.ReturnStmt); isR {
-				if cl, isC := rs.Results[0].(*ast.CompositeLit); isC && len(cl.Elts) == 1 {
+		fv := foldedView(f)
+		// a switch on the sign: the clause we are in
+		if cc, isCC := p.enclosing(n, fi.Decl, func(m ast.Node) bool { _, is := m.(*ast.CaseClause); return is }).(*ast.CaseClause); isCC && len(cc.List) == 1 {
+			if sw, isSw := p.Parent(p.Parent(cc)).(*ast.SwitchStmt); isSw && sw.Tag != nil && signNames[strings.ReplaceAll(exprStr(sw.Tag), " ", "")] {
+				if k, isK := constInt(info, cc.List[0]); isK {
+					return map[int64]string{0: "zero", 1: "positive", -1: "negative"}[k], fv
+				}
+			}
+		}
+		isT := func(k string) bool { v, ok := fv[k]; return ok && v }
+		isF := func(k string) bool { v, ok := fv[k]; return ok && !v }
+		for s := range signNames {
+			switch {
+			case isT(s + "==0"):
+				return "zero", fv
+			case isT(s+"==1"), isT("0<" + s):
+				return "positive", fv
+			case isT(s+"==-1"), isT(s + "<0"):
+				return "negative", fv
+			case isF(s+"==0") && isF("0<"+s), isF(s+"==0") && isF(s+"==1"):
+				return "negative", fv
+			}
+		}
+		return "", fv
+	}
+	zeroOK, posOK, strip, otherBitLen := false, false, false, false
+	ast.Inspect(fi.Decl.Body, func(x ast.Node) bool {
+		switch y := x.(type) {
+		case *ast.ReturnStmt:
+			if len(y.Results) == 1 {
+				if cl, isC := ast.Unparen(y.Results[0]).(*ast.CompositeLit); isC && len(cl.Elts) == 1 {
 					if v, isK := constInt(info, cl.Elts[0]); isK && v == 0 {
-						ok = true
+						if cls, _ := classAt(y); cls == "zero" {
+							zeroOK = true
+						}
 					}
 				}
 			}
-			r.Check(ok, cc, "encBigInt2C: zero is the single byte 00", "[]byte{0}", "zero is not encoded as one zero byte")
-		case 1:
-			ok := false
-			ast.Inspect(cc, func(x ast.Node) bool {
-				if ifs, isIf := x.(*ast.IfStmt); isIf {
-					c := foldStr(info, ifs.Cond)
-					if strings.Contains(c, "[0]&128") {
-						for _, ca := range callsIn(ifs.Body) {
-							if exprStr(ca.Fun) == "append" && len(ca.Args) >= 1 {
-								if cl, isC := ca.Args[0].(*ast.CompositeLit); isC && len(cl.Elts) == 1 {
-									if v, isK := constInt(info, cl.Elts[0]); isK && v == 0 {
-										ok = true
-									}
-								}
+		case *ast.CallExpr:
+			if exprStr(y.Fun) == "append" && len(y.Args) >= 2 {
+				if cl, isC := ast.Unparen(y.Args[0]).(*ast.CompositeLit); isC && len(cl.Elts) == 1 {
+					if v, isK := constInt(info, cl.Elts[0]); isK && v == 0 {
+						cls, fv := classAt(y)
+						top := false
+						for k, val := range fv {
+							if strings.Contains(k, "[0]&128") && (strings.HasPrefix(k, "0<") && val || strings.HasSuffix(k, "==0") && !val || strings.HasSuffix(k, "==128") && val) {
+								top = true
 							}
+							if strings.HasPrefix(k, "127<") && strings.HasSuffix(k, "[0]") && val {
+								top = true
+							}
+						}
+						if cls == "positive" && top {
+							posOK = true
 						}
 					}
 				}
-				return true
-			})
-			r.Check(ok, cc, "encBigInt2C: a positive value whose top bit is set gets a leading zero byte", "b[0]&0x80 -> prepend 0", "a positive value with the top bit of its first byte set is not prefixed with a zero byte: it reads back negative")
-		case -1:
-			strip, otherBitLen := false, false
-			ast.Inspect(cc, func(x ast.Node) bool {
-				switch s := x.(type) {
-				case *ast.IfStmt:
-					c := foldStr(info, s.Cond)
-					if strings.Contains(c, "[0]==255") && strings.Contains(c, "[1]&128") {
-						for _, st := range s.Body.List {
-							if as, isA := st.(*ast.AssignStmt); isA && len(as.Rhs) == 1 {
-								if sl, isS := as.Rhs[0].(*ast.SliceExpr); isS && sl.Low != nil {
-									if lo, isK := constInt(info, sl.Low); isK && lo == 1 {
-										strip = true
-									}
-								}
-							}
+			}
+			if calleeName(info, y) == "big.(*Int).BitLen" {
+				if rcv := recvExpr(y); rcv != nil && exprStr(rcv) != "n" {
+					otherBitLen = true
+				}
+			}
+		case *ast.SliceExpr:
+			if y.Low != nil && y.High == nil {
+				if lo, isK := constInt(info, y.Low); isK && lo == 1 {
+					cls, fv := classAt(y)
+					b := strings.ReplaceAll(exprStr(y.X), " ", "")
+					ff, top := false, false
+					for k, val := range fv {
+						if (k == b+"[0]==255" || k == "255=="+b+"[0]") && val {
+							ff = true
+						}
+						if strings.Contains(k, b+"[1]&128") && (strings.HasPrefix(k, "0<") && val || strings.HasSuffix(k, "==0") && !val || strings.HasSuffix(k, "==128") && val) {
+							top = true
 						}
 					}
-				case *ast.CallExpr:
-					if calleeName(info, s) == "big.(*Int).BitLen" {
-						if rcv := recvExpr(s); rcv != nil && exprStr(rcv) != "n" {
-							otherBitLen = true
-						}
+					if cls == "negative" && ff && top {
+						strip = true
 					}
 				}
-				return true
-			})
-			r.Check(strip || otherBitLen, cc, "encBigInt2C: negative values are minimal at the -2^(8k-1) boundary", ifs(strip, "redundant leading 0xff stripped by inspecting the bytes", "length from the bit length of a shifted value"),
-				"the length of a negative value is derived from n.BitLen() alone and no redundant leading 0xff is stripped: no function of bitlen(|n|) is minimal for both -2^(8k-1) and its neighbours, so e.g. -128 or -32768 is one byte too long")
+			}
 		}
-	}
+		return true
+	})
+	r.Check(zeroOK, fi.Decl, "encBigInt2C: zero is the single byte 00", "[]byte{0} where the sign is 0", "zero is not encoded as one zero byte")
+	r.Check(posOK, fi.Decl, "encBigInt2C: a positive value whose top bit is set gets a leading zero byte", "b[0]&0x80 -> prepend 0", "a positive value with the top bit of its first byte set is not prefixed with a zero byte: it reads back negative")
+	r.Check(strip || otherBitLen, fi.Decl, "encBigInt2C: negative values are minimal at the -2^(8k-1) boundary", ifs(strip, "redundant leading 0xff stripped by inspecting the bytes", "length from the bit length of a shifted value"),
+		"the length of a negative value is derived from n.BitLen() alone and no redundant leading 0xff is stripped: no function of bitlen(|n|) is minimal for both -2^(8k-1) and its neighbours, so e.g. -128 or -32768 is one byte too long")
 }
 
 func subst2(buf string, subst map[string]string) string {
@@ -2133,4 +2367,15 @@ func c12r12(p *Program, r *Report) {
 	if n == 0 {
 		r.Unresolved("no unmarshal loop decodes elements through reflect values")
 	}
+}
+
+// noMarshal drops the marshal(...) items of a framing sequence.
+func noMarshal(seq []string) []string {
+	var out []string
+	for _, it := range seq {
+		if !strings.HasPrefix(it, "marshal(") {
+			out = append(out, it)
+		}
+	}
+	return out
 }
